@@ -85,6 +85,7 @@ def obs_kernels(n, level=1):
             (x, (('x', h), ('y', h))),                  # half informative
             (y, x),                                     # swapped labels
             ((('x', one), ('y', z)), (('y', one), ('x', z))),  # revealing with explicit zero entries
+            ((('x', one - F(1, 10 ** 9)), ('y', F(1, 10 ** 9))), (('x', one - F(3, 10 ** 9)), ('y', F(3, 10 ** 9)))),  # rare observation
         ]
         if level >= 2:
             ks += [((('x', h), ('y', h)), (('x', h), ('y', h))), ((('x', q), ('y', tq)), y),
